@@ -162,6 +162,9 @@ WS_LAYOUTS = [
     ("workspace: black options in the root, a metadata-only pyproject.toml in the package",
      {"pyproject.toml": "[tool.black]\nline-length = 60\n", "pkg/pyproject.toml": "[project]\nname = 'pkg'\nversion = '1'\n"}, "pkg/test_w.py", "[tool.black]\nline-length = 60\n"),
     ("single project", {"pyproject.toml": "[tool.black]\nline-length = 60\n"}, "tests/test_w.py", "[tool.black]\nline-length = 60\n"),
+    ("the default configuration block of docs/configuration.md (format-command = \"\")",
+     {"pyproject.toml": "[tool.black]\nline-length = 60\n\n[tool.inline-snapshot]\nhash-length=15\ndefault-flags=[\"report\"]\nformat-command=\"\"\nskip-snapshot-updates-for-now=false\n"},
+     "tests/test_w.py", "[tool.black]\nline-length = 60\n"),
     ("nested project with its own black options", {"pyproject.toml": "[tool.black]\nline-length = 120\n", "sub/pyproject.toml": "[tool.black]\nline-length = 50\n"}, "sub/test_w.py",
      "[tool.black]\nline-length = 50\n"),
 ]
